@@ -23,57 +23,76 @@ LEAN_MODULES = ["MpfVerif.Props.C09"]
 PROPS_FILE = "MpfVerif/Props/C09.lean"
 GEN = []
 MANIFEST = {
-  "text": "Proof on a Lean model of the light priority stack (mpf/devices/light.py), its hardware-target computation with both suppression shortcuts, the fade-out delays, and the software fade stepping of LightPlatformDirectFade: for every sequence of color/remove/clear commands, delay firings and clock advances the stack stays strictly sorted by (priority, key) with unique keys; the logical colour is that of the top entry, interpolated with exact integer arithmetic and never outside its endpoints; a new fading entry starts from the colour of the entries that do not sort above it; removing a key (or all keys) restores exactly the stack without it (off when empty); the last hardware target colour sent always equals the target of the current stack (so the suppression shortcuts never lose an update) and equals the logical colour once all fades and fade-outs are over; a channel has at most one live stepping task, it belongs to the latest command, and when none is live the last commanded brightness is the latest command's target; and, on a model of PlatformBatchLightSystem (dirty set swapped out by the sender, awaited update callback, re-scheduling of running fades), for every interleaving of set_fade commands with scheduler iterations, sender computations and callback starts/completions no dirty light is ever lost and at rest the platform has received the target brightness of every light's latest fade. The models are tied to the real Light on the direct (VirtualLight), software-faded (DriverLight on real Drivers) and batched (real PlatformBatchLightSystem) back ends by a correspondence run on every check, with a model-independent oracle on the hardware commands.",
-  "note": "Trusted: Lean kernel + {propext, Classical.choice, Quot.sound}; the hand-written model Model/Light.lean (validated only by differential runs); float interpolation in the implementation is compared (exact on the 1/8 s grid for the stack, 1e-9 for channel brightness), not proved; colour correction / brightness factor are applied pointwise outside the model; the RGBW channel mapping (min_rgb / duck_rgb / white_only) is checked by the oracle on a real RGBW light, not modelled; hardware-fading platforms (max_fade_ms > 0), the batch system's poll sleep and sequential grouping (modelled as: a flush may happen whenever the list is non-empty) and its _last_brightness cache are abstracted.",
-  "technique": "Lean 4 theorems (invariants by induction over all operation sequences) on a hand model + differential correspondence with real Light devices on three real back ends + hardware-output oracle",
+  "text": "Proof on a Lean model of the light priority stack (mpf/devices/light.py), its hardware-target computation with both suppression shortcuts, the fade-out delays, the brightness factor, the colour-correction lookup, default_on_color scaling of Light.on(), the RGBW channel mapping (min_rgb / duck_rgb / white_only), and the fade stepping of LightPlatformDirectFade both as software fade (max_fade_ms = 0) and on hardware that fades by itself (max_fade_ms > 0): for every sequence of color/on/off/remove/clear commands, delay firings and clock advances the stack stays strictly sorted by (priority, key) with unique keys; the logical colour is that of the top entry, interpolated with exact integer arithmetic and never outside its endpoints; a new fading entry starts from the colour of the entries that do not sort above it; removing a key (or all keys) restores exactly the stack without it (off when empty); the last hardware target colour sent always equals the target of the current stack (so the suppression shortcuts never lose an update) and equals the logical colour once all fades and fade-outs are over; a channel has at most one live stepping task, it belongs to the latest command, and when none is live the last commanded brightness is the latest command's target; the stepping task of LightPlatformDirectFade._fade with any max_fade_ms hands over only pairs of the latest command, within the hardware's maximum fade and on the logical fade line, the last one carrying the target and exactly the remaining time, while set_fade as the code is starts that task only when (target_time - now)/1000.0 exceeds max_fade_ms and otherwise hands the target over at once (so the at-rest clause holds on hardware-fading lights; that the hardware is told to jump - D30 - is outside the property and only counted); the RGBW mapping keeps all four channels in 0..255 and white plus channel reproduces the colour; brightness is monotone, never brightens and maps black to black; and, on a model of PlatformBatchLightSystem (dirty set swapped out by the sender, awaited update callback, re-scheduling of running fades, hardware fades up to max_fade_ms with the target cache as the code has it (a repeated update answers fade 0 - D31, outside the property, only counted), grouping into lists of successive channels bounded by batch size and fade tolerance), for every interleaving of set_fade commands with scheduler iterations, sender computations and callback starts/completions no dirty light is ever lost, every dirty light of a round is handed to the callback exactly once whatever the grouping, the grouping function returns every queued light exactly once in lists of successive channels within the batch size, and at rest the platform has received the target brightness of every light's latest fade. The models are tied to the real Light on the direct (VirtualLight), software-faded (DriverLight on real Drivers), hardware-fading direct (a test light deriving from the real LightPlatformDirectFade with max_fade_ms > 0) and batched (real PlatformBatchLightSystem, with and without hardware fades, batch sizes 1..16, extra lights with their own commands) back ends by a correspondence run on every check, with a model-independent oracle that states what C09 states (logical colour = top entry, interpolated within its endpoints; remove restores, clear turns off; at rest the last commanded brightness of every channel on every back end equals the corrected logical colour); the transient hardware output (pairs on the logical line, start brightness of interrupted fades, exactly-once and sequential lists per round) is compared with the model and counted as observations, not required.",
+  "note": "Trusted: Lean kernel + {propext, Classical.choice, Quot.sound}; the hand-written models Model/Light.lean and Model/BatchLight.lean (validated only by differential runs); float interpolation in the implementation is compared (exact on the 1/8 s grid for the stack, 1e-9 for channel brightness), not proved; the colour-correction profile enters the model as its 3x256 lookup table (the float generator generate_from_parameters is not modelled; whether the configured table is monotone is only observed and counted); the brightness factor is modelled for the quarter values 0.25..1.0; is_successor_of is modelled as 'next channel number' (the test platform's definition); the batch system's poll sleep is abstracted (a round may start whenever something is dirty); FASTLEDChannel's own copy of get_fade_and_brightness and the hardware platforms' serial encodings of (brightness, fade) are not exercised.",
+  "technique": "Lean 4 theorems (invariants by induction over all operation sequences) on a hand model + differential correspondence with real Light devices on five real back ends + hardware-output oracle",
   "translated": False,
  }
-RULE = ("a case = a machine variant (update rate 8/4/2 Hz, with or without a colour correction profile) and a history of "
+RULE = ("a case = a machine variant (update rate 8/4/2 Hz, with or without a colour correction profile, brightness factor "
+        "1.0/0.75/0.5/0.25, one of three default_on_colors, hardware maximum fade 2/8/100 ticks for the hardware-fading direct "
+        "lights and 0/2/8/100 ticks for the batched lights, batch size 1/2/3/5/16) and a history of "
         "4-14 commands (color with fade 0..16 ticks incl. non-dyadic, priorities 0..3 biased to ties, keys ''/a..d, "
-        "explicit past start_time; remove with/without fade-out; clear; an add-then-remove probe; bursts inside one "
-        "callback; 40% of the cases start with two or three keys removed with overlapping fade-outs (inside each other's "
-        "window, same instant, exactly at a window's end) followed by a lower-priority fade; bursts inside one "
-        "callback) at gaps of 0..20 ticks biased to land inside running fades, on fade ends and on fade-out ends, applied "
-        "to 5 real lights (RGB/single x direct/software-faded, plus an RGBW light in one of the three white styles - oracle "
-        "only), and in a second stream to RGB/single lights on a batched test platform (real PlatformBatchLightSystem, slow "
-        "awaited callback, batch size 2) whose marks, scheduler iterations, computations and callback starts/ends are "
-        "replayed on the batch model; every tick the logical colour, the stack and the channel "
-        "state are compared with the model.  non-trivial = the history has a command landing inside a running fade or a "
-        "fade-out, or a same-priority tie, or a refused lower-priority re-issue; distinct = canonical JSON of the case")
+        "explicit past start_time; Light.on(brightness) / Light.off(); remove with/without fade-out; clear; an add-then-remove "
+        "probe; bursts inside one callback; 40% of the cases start with two or three keys removed with overlapping fade-outs "
+        "(inside each other's window, same instant, exactly at a window's end) followed by a lower-priority fade) at gaps of "
+        "0..20 ticks biased to land inside running fades, on fade ends and on fade-out ends, applied "
+        "to 7 real lights (RGB/single x direct/software-faded/hardware-fading, plus an RGBW light in one of the three white "
+        "styles), and in a second stream to RGB/single lights on a batched test platform (real PlatformBatchLightSystem, slow "
+        "awaited callback, three extra single-channel lights at channel numbers adjacent / not adjacent to the others with "
+        "up to 6 commands of their own) whose marks, takes, scheduler iterations, computations and callback starts/ends are "
+        "replayed on the batch model, which also re-derives the grouping of every round; every tick the logical colour, the "
+        "stack and the channel state are compared with the model.  non-trivial = the history has a command landing inside a "
+        "running fade or a fade-out, or a same-priority tie, or a refused lower-priority re-issue; distinct = canonical JSON "
+        "of the case")
 TRUSTED = [
     "modelled, not verified: float arithmetic of RGBColor.blend / the fade ratio (exact for the generated grid), list.sort "
     "on distinct (priority, key), DelayManager/asyncio timers (their firing order at one instant is taken from the run), "
-    "Driver.enable/disable between DriverLight and the wrapped platform driver",
+    "Driver.enable/disable between DriverLight and the wrapped platform driver, SortedSet/SortedList of the batch system",
     "Model/Light.lean is hand-written; tied to mpf/devices/light.py, light_platform_interface.py, driver_light_platform.py, "
     "virtual.py by correspondence on every run; Model/BatchLight.lean tied to platform_batch_light_system.py the same way",
+    "the hardware-fading direct light and the batched lights are test subclasses of the real LightPlatformDirectFade / "
+    "PlatformBatchLight that only record what the hardware is told; the hardware itself (how a controller interpolates a "
+    "(brightness, fade) command) is not modelled",
 ]
 ASSUMPTIONS = ["priorities are non-negative ints, keys are str, colours are RGB triples 0..255; times on the 1/8 s grid",
-               "colour correction and brightness factor are pointwise functions of the emitted colour (applied outside the model)",
-               "RGBW lights are checked against the documented channel mapping by the oracle only; platforms with hardware fades are not exercised"]
+               "the colour correction is a per-component lookup table; brightness factor in {0.25, 0.5, 0.75, 1.0}; "
+               "default_on_color * (brightness / 255) is generated only where the float product is exact",
+               "hardware maximum fades are whole ticks, so int()/round() of millisecond values are exact; batched lights' "
+               "is_successor_of means 'next channel number'"]
 
 TICK = 0.125
 KEYS = ["", "a", "b", "c", "d", "zz"]
 COLORS = [(255, 0, 0), (0, 255, 0), (0, 0, 255), (255, 255, 255), (0, 0, 0), (100, 100, 100), (230, 25, 7), (1, 2, 3),
           (254, 128, 127), (50, 200, 50)]
-LIGHTS = [("d3", 3, "direct"), ("d1", 1, "direct"), ("s3", 3, "soft"), ("s1", 1, "soft"), ("w4", 4, "rgbw")]
+LIGHTS = [("d3", 3, "direct"), ("d1", 1, "direct"), ("s3", 3, "soft"), ("s1", 1, "soft"), ("w4", 4, "rgbw"),
+          ("h3", 3, "hwdirect"), ("h1", 1, "hwdirect")]
+STYLES = ["min_rgb", "duck_rgb", "white_only"]
+ON_COLORS = [(255, 255, 255), (255, 200, 100), (128, 64, 50)]      # int(x * (b / 255)) is exact for these components
+ON_BRIGHTNESS = [255, 128, 0, 1, 77, 200, 254, 64]
 ORDER = {1: ["white"], 3: ["red", "green", "blue"], 4: ["red", "green", "blue", "white"]}
 BATCH_LIGHTS = [("b3", 3, "batch"), ("b1", 1, "batch")]
 
 
-def config_yaml(hz, profile, batch=False, rgbw="duck_rgb"):
-    s = "mpf:\n  default_light_hw_update_hz: %d\n  rgbw_white_behavior: %s\n" % (hz, rgbw)
+def config_yaml(hz, profile, batch=False, rgbw="duck_rgb", onc=(255, 255, 255)):
+    s = ("mpf:\n  default_light_hw_update_hz: %d\n  rgbw_white_behavior: %s\n  platforms:\n"
+         "    hwfadetest: harness.common.c09_hwfade.HwFadePlatform\n" % (hz, rgbw))
+    s += "hardware:\n  platform: virtual, hwfadetest\n"
+    on = "%02x%02x%02x" % tuple(onc)
     if profile:
         s += ("light_settings:\n  default_color_correction_profile: p1\n  color_correction_profiles:\n    p1:\n"
               "      gamma: 2.0\n      whitepoint: [0.9, 0.8, 1.0]\n      linear_slope: 0.75\n      linear_cutoff: 0.1\n")
     s += "coils:\n"
     for i in range(1, 5):
         s += "  c%d: {number: %d, allow_enable: true, max_hold_power: 1.0}\n" % (i, i)
-    s += ("lights:\n  d3: {number: 1, subtype: led}\n  d1: {number: 2, subtype: matrix}\n"
-          "  s1: {number: c1, subtype: matrix, platform: drivers}\n"
-          "  s3:\n    type: rgb\n    channels:\n      red: {number: c2, platform: drivers}\n"
+    s += ("lights:\n  d3: {number: 1, subtype: led, default_on_color: ON}\n"
+          "  d1: {number: 2, subtype: matrix, default_on_color: ON}\n"
+          "  s1: {number: c1, subtype: matrix, platform: drivers, default_on_color: ON}\n"
+          "  s3:\n    type: rgb\n    default_on_color: ON\n    channels:\n      red: {number: c2, platform: drivers}\n"
           "      green: {number: c3, platform: drivers}\n      blue: {number: c4, platform: drivers}\n"
-          "  w4:\n    type: rgbw\n    channels:\n      red: {number: 31}\n      green: {number: 32}\n"
-          "      blue: {number: 33}\n      white: {number: 34}\n")
+          "  w4:\n    type: rgbw\n    default_on_color: ON\n    channels:\n      red: {number: 31}\n      green: {number: 32}\n"
+          "      blue: {number: 33}\n      white: {number: 34}\n"
+          "  h3: {number: 40, subtype: led, platform: hwfadetest, default_on_color: ON}\n"
+          "  h1: {number: 50, subtype: matrix, platform: hwfadetest, default_on_color: ON}\n").replace("ON", '"%s"' % on)
     return s
 
 
@@ -102,8 +121,14 @@ def gen_overlap(r, ops):
     return window
 
 
+def on_color(onc, b):
+    """`default_on_color * (brightness / 255)`: exact integer arithmetic (the float product is exact for ON_COLORS)"""
+    return [min(x * b // 255, 255) for x in onc]
+
+
 def gen_case(r):
     hz = r.choice([8, 8, 4, 2])
+    onc = r.choice(ON_COLORS)
     ops = []
     n = r.randint(4, 14)
     pending = []      # tick offsets (relative to now) at which something interesting ends
@@ -126,7 +151,16 @@ def gen_case(r):
         if kind < 0.6:
             fade = r.choice([0, 0, 0, 1, 2, 3, 4, 5, 6, 7, 8, 12, 16])
             st_back = r.choice([0, 0, 0, 0, 0, 1, 2]) if fade else 0
-            ops.append([dt, "color", list(r.choice(COLORS)), fade, r.choice([0, 1, 1, 2, 3]), key, st_back])
+            how = r.random()
+            if how < 0.12:        # Light.on(brightness): the colour is default_on_color scaled
+                b = r.choice(ON_BRIGHTNESS)
+                ops.append([dt, "color", on_color(onc, b), fade, r.choice([0, 1, 1, 2, 3]), key, 0, ["on", b]])
+                st_back = 0
+            elif how < 0.18:      # Light.off()
+                ops.append([dt, "color", [0, 0, 0], fade, r.choice([0, 1, 1, 2, 3]), key, 0, ["off"]])
+                st_back = 0
+            else:
+                ops.append([dt, "color", list(r.choice(COLORS)), fade, r.choice([0, 1, 1, 2, 3]), key, st_back])
             if fade:
                 pending.append(fade - st_back)
         elif kind < 0.85:
@@ -139,7 +173,13 @@ def gen_case(r):
         else:
             ops.append([dt, "probe", list(r.choice(COLORS))])
     return {"hz": hz, "profile": r.random() < 0.25, "ops": ops, "tail": r.choice([20, 24, 40]),
-            "rgbw": r.choice(["duck_rgb", "min_rgb", "white_only"])}
+            "rgbw": r.choice(["duck_rgb", "min_rgb", "white_only"]),
+            # hardware-fading back ends: the longest fade the hardware does on its own, in ticks (2 and 8: longer fades are
+            # stepped; 100: every fade is one command); batch: size of one list, extra lights with their own commands
+            "hwm": r.choice([2, 2, 8, 8, 100]), "bhwm": r.choice([0, 0, 2, 8, 100]), "bright": r.choice([4, 4, 4, 3, 2, 1]), "onc": list(onc),
+            "bsize": r.choice([1, 2, 2, 3, 5, 16]),
+            "fill": [[r.randrange(0, max(len(ops), 1)), r.randrange(3), list(r.choice(COLORS)), r.choice([0, 0, 2, 4, 8, 16])]
+                     for _ in range(r.randint(0, 6))]}
 
 
 def rgbw_channels(style, c):
@@ -238,6 +278,8 @@ class Run:
                 self.wrap_set_fade(hw, name, i)
                 if kind == "soft":
                     self.wrap_driver(hw.driver.hw_driver, name, i)
+                if kind == "hwdirect":
+                    hw.platform.on_cmd = self.hw_cmd
 
     def wrap_set_fade(self, hw, name, i):
         run = self
@@ -253,6 +295,45 @@ class Run:
                 return _cls._verif_orig_set_fade(obj, sb, st, tb, tt)
             cls.set_fade = set_fade
         cls._verif_run = self
+
+    def hw_cmd(self, hw, brightness, fade_ms):
+        """the hardware-fading light `hw` is told: go to `brightness` within `fade_ms`"""
+        name, i = self.chan_of[id(hw)]
+        t = self.tick()
+        self.observe_hw_cmd(name, i, hw, brightness, fade_ms)
+        ft = fade_ms * 8000.0       # the model's unit for a handed fade duration: 1/8000 ms (one tick = 1000000)
+        if self.marker is not None:
+            self.marker.setdefault("imm", []).append([i, brightness])
+            self.marker.setdefault("immf", {})[i] = ft
+        else:
+            self.logs[name].append({"ev": "step", "t": t, "ch": i, "power": brightness, "fade": ft})
+
+    def observe(self, what):
+        """informational observations: things outside what C09 states (transient hardware output); counted, never failed"""
+        self.obs[what] = self.obs.get(what, 0) + 1
+
+    def observe_hw_cmd(self, name, i, hw, b, fade_ms):
+        """OBSERVATION, not part of the property (C09 constrains the logical colour and the hardware at rest, not the
+        transient hardware output): does the (brightness, fade) pair handed to a hardware-fading light lie on the line of
+        the light's latest set_fade, within the hardware's maximum fade, the last one carrying the target and the
+        remaining time?  On the code as it is it does not (D30: set_fade divides by 1000); counted in the evidence."""
+        now = self.vm.now()
+        _, sb, st, tb, tt = hw.fades[-1]
+        M = hw.max_fade_ms
+        off = False
+        end = now + fade_ms / 1000.0
+        if not (0 <= fade_ms <= M) or not (0.0 <= b <= 1.0):
+            off = True
+        elif tt < 0 or tt <= now + 1e-9:
+            off = abs(b - tb) > 1e-9 or fade_ms != 0
+        else:
+            remaining = (tt - now) * 1000.0
+            if remaining <= M + 1e-6:
+                off = abs(b - tb) > 1e-9 or abs(fade_ms - remaining) > 1.0
+            else:
+                want = min(1.0, max(0.0, sb + (tb - sb) * (end - st) / (tt - st)))
+                off = abs(fade_ms - M) > 1e-6 or abs(b - want) > 1e-9
+        self.observe("hw_fade_command_off_the_logical_fade" if off else "hw_fade_command_on_the_logical_fade")
 
     def wrap_driver(self, hd, name, i):
         run = self
@@ -303,6 +384,10 @@ class Run:
             elif kind == "soft":
                 live = 1 if (hw.task is not None and not hw.task.done()) else 0
                 out.append((self.last_power.get((name, order.index(col)), 0.0), live))
+            elif kind == "hwdirect":
+                live = 1 if (hw.task is not None and not hw.task.done()) else 0
+                out.append((self.last_power.get((name, order.index(col)), 0.0), live,
+                            self.last_fade.get((name, order.index(col)), 0.0)))
             else:
                 out.append((hw.sent if hw.sent is not None else 0.0, 0))
         return out
@@ -324,8 +409,14 @@ class Run:
 
     # -- the model-independent oracle ---------------------------------------------------------------------------------
     def corrected(self, light, col):
-        from mpf.core.rgb_color import RGBColor
-        return tuple(light.color_correct(light.gamma_correct(RGBColor(col))))
+        """brightness factor (`int(x * q / 4)`), then the profile's lookup table (data of the configured profile)"""
+        q = self.case.get("bright", 4)
+        if q != 4:
+            col = tuple(x * q // 4 for x in col)
+        prof = light._color_correction_profile
+        if prof is not None:
+            col = tuple(prof._lookup_table[i][col[i]] for i in range(3))
+        return tuple(col)
 
     @staticmethod
     def chan_vals(nchan, col):
@@ -374,12 +465,37 @@ class Run:
                 return      # a batch may be in flight and the system polls: the transmission lags the command
             if kind == "soft" and t < self.busy_until + self.interval - 1:
                 return      # the last step of a software fade comes up to one update interval after the fade's end
-            for i, (b, live) in enumerate(ev["hw"]):
+            for i, (b, live) in enumerate(x[:2] for x in ev["hw"]):
                 if b is None or abs(b * 255 - cc[i]) > 1e-6 or live:
                     self.fail.append(("quiescent-hw-differs-" + kind,
                                       {"light": name, "t": t, "channel": i, "hw": b, "want": cc[i] / 255, "logical": col,
                                        "live_task": live}))
                     break
+
+    def oracle_fade_start(self, name, nchan, kind, light, ev):
+        """OBSERVATION (transient hardware output, outside the property): a fade handed to the hardware channels that
+        starts now starts from the channel values of the (corrected) logical colour at this instant"""
+        now = self.vm.now()
+        for i, sb, st, tb, tt in ev["sets"]:
+            if tt > now and abs(st - now) < 1e-9:
+                try:
+                    col = tuple(light.get_color())
+                except Exception:  # noqa: reported by sample()
+                    return
+                cc = self.corrected(light, col)
+                want = rgbw_channels(self.case.get("rgbw", "duck_rgb"), cc) if kind == "rgbw" else self.chan_vals(nchan, cc)
+                self.observe("hw_fade_start_is_current_brightness" if abs(sb * 255 - want[i]) <= 1e-6
+                             else "hw_fade_start_not_current_brightness")
+
+    def set_brightness(self):
+        q = self.case.get("bright", 4)
+        if q == 4:
+            return
+        m = self.vm.machine
+        m.variables.set_machine_var("brightness", q / 4)
+        self.vm.advance(TICK)
+        if m.light_controller.brightness_factor != q / 4:
+            raise InfraError("brightness factor not taken: %r" % m.light_controller.brightness_factor)
 
     # -- driving ------------------------------------------------------------------------------------------------------
     def do_op(self, op):
@@ -394,7 +510,7 @@ class Run:
         for sub in subs:
             # reference bookkeeping (12-line stack model of the oracle)
             if sub[1] == "color":
-                _, _, c, fade, p, key, stb = sub
+                _, _, c, fade, p, key, stb = sub[:7]
                 self.commanded.append(tuple(c))
                 accepted = not (key in self.ref and p < self.ref[key][0])
                 if accepted:
@@ -428,11 +544,16 @@ class Run:
                 self.marker = ev
                 try:
                     if sub[1] == "color":
-                        _, _, c, fade, p, key, stb = sub
+                        _, _, c, fade, p, key, stb = sub[:7]
                         kw = {}
                         if stb:
                             kw["start_time"] = self.vm.now() - stb * TICK
-                        light.color(RGBColor(c), fade_ms=fade * 125, priority=p, key=key, **kw)
+                        if len(sub) > 7 and sub[7][0] == "on":
+                            light.on(brightness=sub[7][1], fade_ms=fade * 125, priority=p, key=key)
+                        elif len(sub) > 7 and sub[7][0] == "off":
+                            light.off(fade_ms=fade * 125, priority=p, key=key)
+                        else:
+                            light.color(RGBColor(c), fade_ms=fade * 125, priority=p, key=key, **kw)
                     elif sub[1] == "remove":
                         light.remove_from_stack_by_key(sub[2], fade_ms=sub[3] * 125)
                     elif sub[1] == "clear":
@@ -444,6 +565,9 @@ class Run:
                     self.marker = None
                 for i, power in ev.get("imm", []):
                     self.last_power[(name, i)] = power
+                for i, ft in ev.get("immf", {}).items():
+                    self.last_fade[(name, i)] = ft
+                self.oracle_fade_start(name, nchan, lk, light, ev)
         if kind == "probe":
             for name, _, _ in self.lights:
                 after = tuple(self.vm.machine.lights[name].get_color())
@@ -464,10 +588,14 @@ class Run:
                 if ev["ev"] == "step" and "seen" not in ev:
                     ev["seen"] = 1
                     self.last_power[(name, ev["ch"])] = ev["power"]
+                    if "fade" in ev:
+                        self.last_fade[(name, ev["ch"])] = ev["fade"]
                 elif ev["ev"] == "fire" and "seen" not in ev:
                     ev["seen"] = 1
                     for i, power in ev.get("imm", []):
                         self.last_power[(name, i)] = power
+                    for i, ft in ev.get("immf", {}).items():
+                        self.last_fade[(name, i)] = ft
 
     def execute(self):
         case = self.case
@@ -477,31 +605,37 @@ class Run:
         self.ghost_until = -1
         self.top_fade = None
         self.last_power = {}
+        self.last_fade = {}
+        self.obs = {}
         self.batch_lag = 0
         self.last_op_t = -1
         self.interval = {8: 1, 4: 2, 2: 4}[case["hz"]]
-        cfg = config_yaml(case["hz"], case["profile"], rgbw=case.get("rgbw", "duck_rgb"))
+        cfg = config_yaml(case["hz"], case["profile"], rgbw=case.get("rgbw", "duck_rgb"), onc=case.get("onc", (255, 255, 255)))
         extra = None
+        from harness.common import c09_hwfade
+        c09_hwfade.MAX_FADE_MS = 125 * case.get("hwm", 2)
         if self.batch:
             from harness.common import c09_batch
-            cfg, extra = c09_batch.config(case["hz"], case["profile"])
+            cfg, extra = c09_batch.config(case)
         try:
-            self.vm = VMachine(cfg, extra_files=extra, platform=None if self.batch else "virtual").start()
+            self.vm = VMachine(cfg, extra_files=extra, platform=None).start()
         except BootError as e:
             raise InfraError("C09 machine does not boot: %s" % e)
         try:
             if self.batch:
-                from harness.common import c09_batch
                 c09_batch.attach(self)
             self.vm.align()
             self.vm.advance(1.0 - self.vm.now() if self.vm.now() < 1.0 else 0)
             self.install()
+            self.set_brightness()
             self.t0 = self.tick()
             ops = case["ops"]
             for n, op in enumerate(ops):
                 for _ in range(max(op[0], 0)):
                     self.advance_one()
                 self.do_op(op)
+                if self.batch:
+                    c09_batch.fill_ops(self, n)
                 if n + 1 < len(ops) and ops[n + 1][0] < 0:
                     continue
                 try:
@@ -510,8 +644,11 @@ class Run:
                     self.fail.append(("crash-in-callback", {"t": self.tick(), "error": repr(e)}))
                 self.collect_steps()
                 self.sample("after-op")
-            for _ in range(case["tail"]):
+            for _ in range(max(case["tail"], self.batch_lag + 8) if self.batch else case["tail"]):
                 self.advance_one()
+            if self.batch:
+                self.rounds = c09_batch.oracle(self)
+                self.batch_log = list(self.batch_platform.log)
         finally:
             from mpf.devices.light import Light
             Light._verif_run = None
@@ -525,19 +662,23 @@ class Run:
 
 def model_check(ctx, model, run, case):
     """Feed each light's log to the model; compare every observation."""
-    m = run.vm_lights
     for name, nchan, kind in run.lights:
-        if kind in ("batch", "rgbw"):
-            continue        # RGBW channel mapping is covered by the oracle only
+        if kind == "batch":
+            continue
         log = run.logs[name]
         interval = {8: 1, 4: 2, 2: 4}[case["hz"]]
-        if model.ask("init %d %d" % (nchan, interval)) != "ok":
+        maxfade = 0
+        if kind == "hwdirect":
+            maxfade = interval = case.get("hwm", 2)      # get_fade_interval_ms() defaults to get_max_fade_ms()
+        onc = case.get("onc", [255, 255, 255])
+        style = STYLES.index(case.get("rgbw", "duck_rgb"))
+        if model.ask("init %d %d %d %d %d %d %d %d" % (nchan, interval, maxfade, style, case.get("bright", 4),
+                                                      onc[0], onc[1], onc[2])) != "ok":
             raise InfraError("model init failed")
         if case["profile"]:
-            fn = run.corr_fn[name]
-            tab = [fn((v, v, v))[ch] for ch in range(3) for v in range(256)]
-            if any(fn((a, b, c)) != (tab[a], tab[256 + b], tab[512 + c]) for a, b, c in COLORS):
-                raise InfraError("colour correction is not a per-component table")
+            tab = run.profile_table.get(name)
+            if tab is None or len(tab) != 768:
+                raise InfraError("no colour correction table for %s" % name)
             if model.ask("corr " + " ".join(str(x) for x in tab)) != "ok":
                 raise InfraError("model corr failed")
         now = None
@@ -552,8 +693,13 @@ def model_check(ctx, model, run, case):
             if ev["ev"] == "op":
                 op = ev["op"]
                 if op[1] == "color":
-                    _, _, c, fade, p, key, stb = op
-                    line = "color %d %d %d %d %d %d %d" % (c[0], c[1], c[2], fade, p, KEYS.index(key), now - stb)
+                    _, _, c, fade, p, key, stb = op[:7]
+                    if len(op) > 7 and op[7][0] == "on":
+                        line = "on %d %d %d %d %d" % (op[7][1], fade, p, KEYS.index(key), now)
+                    elif len(op) > 7 and op[7][0] == "off":
+                        line = "off %d %d %d %d" % (fade, p, KEYS.index(key), now)
+                    else:
+                        line = "color %d %d %d %d %d %d %d" % (c[0], c[1], c[2], fade, p, KEYS.index(key), now - stb)
                 elif op[1] == "remove":
                     line = "remove %d %d" % (KEYS.index(op[2]), op[3])
                 else:
@@ -576,6 +722,12 @@ def model_check(ctx, model, run, case):
                 if not ctx.compare(dict(case, **what, at=now, what="task step", channel=ev["ch"]),
                                    "b" if ok else ["b", ev["power"]], "b" if ok else ans):
                     return
+                if "fade" in ev:
+                    # the fade duration handed to the hardware with this step
+                    ans = model.ask("hw").split(" ")[1:][ev["ch"]].split("/")[3]
+                    if not ctx.compare(dict(case, **what, at=now, what="hardware fade of the step", channel=ev["ch"]),
+                                       round(float(ev["fade"]), 3), float(ans)):
+                        return
             elif ev["ev"] == "sample":
                 ans = model.ask("get")
                 if not ctx.compare(dict(case, **what, at=now, what="logical colour"),
@@ -589,42 +741,42 @@ def model_check(ctx, model, run, case):
                     ans = model.ask("overdue")
                     if not ctx.compare(dict(case, **what, at=now, what="fade-out delays overdue"), "t", ans):
                         return
-                if kind == "soft":
+                if kind in ("soft", "hwdirect"):
                     ans = model.ask("hw")
                     ok = True
                     parts = ans.split(" ")[1:]
-                    for (b, live), p in zip(ev["hw"], parts):
-                        num, den, n = p.split("/")
-                        if abs(int(num) / int(den) - corr_back(run, name, b)) > 1e-9 or int(n) != live:
+                    for obs, p in zip(ev["hw"], parts):
+                        num, den, n, lf = p.split("/")
+                        if abs(int(num) / int(den) - obs[0]) > 1e-9 or int(n) != obs[1]:
                             ok = False
-                    if not ctx.compare(dict(case, **what, at=now, what="channel brightness / live tasks"),
+                        if kind == "hwdirect" and abs(int(lf) - obs[2]) > 1e-3:
+                            ok = False
+                    if not ctx.compare(dict(case, **what, at=now, what="channel brightness / live tasks / hardware fade"),
                                        "h" if ok else ["h", ev["hw"]], "h" if ok else ans):
                         return
 
 
-def corr_back(run, name, b):
-    return b
-
-
 def cmp_update(ctx, run, case, what, name, nchan, kind, ev, ans, line):
-    """`ans` = 'upd -' | 'upd sr sg sb st tr tg tb tt tokens' | 'not-enabled'; ev['sets'] = real set_fade calls."""
+    """`ans` = 'upd -' | 'upd sr sg sb st tr tg tb tt tokens | sb:tb per channel' | 'not-enabled'; ev['sets'] = the real
+    set_fade calls.  The per-channel brightness pairs are the model's own (brightness factor, correction table, RGBW
+    channel mapping are inside the model)."""
     impl = sorted([[i, round(sb * 255, 6), Run.to_tick(st) if st >= 0 else -1, round(tb * 255, 6),
                     Run.to_tick(tt) if tt >= 0 else -1] for i, sb, st, tb, tt in ev["sets"]])
     imm = {i for i, _ in ev.get("imm", [])}
-    if kind == "soft":
+    if kind in ("soft", "hwdirect"):
         impl = [x + ["i" if x[0] in imm else "t"] for x in impl]
-    parts = ans.split(" ")
+    head, _, per = ans.partition(" |")
+    parts = head.split(" ")
     if parts[0] != "upd":
         ctx.compare(dict(case, **what, at=ev["t"], line=line), impl, ans)
         return False
     mod = []
     if parts[1] != "-":
         v = [int(x) for x in parts[1:9]]
-        light_corr = run.corr_fn[name]
-        sc, tc = light_corr(tuple(v[0:3])), light_corr(tuple(v[4:7]))
+        pairs = [[int(y) for y in x.split(":")] for x in per.split()]
         for i in range(nchan):
-            row = [i, float(Run.chan_vals(nchan, sc)[i]), v[3], float(Run.chan_vals(nchan, tc)[i]), v[7]]
-            if kind == "soft":
+            row = [i, float(pairs[i][0]), v[3], float(pairs[i][1]), v[7]]
+            if kind in ("soft", "hwdirect"):
                 row.append(parts[9][i])
             mod.append(row)
     return ctx.compare(dict(case, **what, at=ev["t"], line=line, what="hardware update"), impl, mod)
@@ -636,23 +788,18 @@ def cmp_update(ctx, run, case, what, name, nchan, kind, ev, ans, line):
 
 def execute_case(case, batch=False):
     run = Run(case, batch=batch)
-    # the colour correction function of each light, captured while the machine lives
-    run.corr_fn = {}
+    # the lookup table of each light's colour correction profile (plain data), captured while the machine lives
+    run.profile_table = {}
     orig_install = run.install
 
     def install():
         orig_install()
-        from mpf.core.rgb_color import RGBColor
         for name, _, _ in run.lights:
-            light = run.vm.machine.lights[name]
-            table = {}
-
-            def fn(col, _l=light, _t=table):
-                if col not in _t:
-                    _t[col] = tuple(_l.color_correct(_l.gamma_correct(RGBColor(col))))
-                return _t[col]
-            # pre-compute lazily is impossible after stop(): the profile object is plain data, so keep the light
-            run.corr_fn[name] = fn
+            prof = run.vm.machine.lights[name]._color_correction_profile
+            if prof is not None:
+                run.profile_table[name] = [v for ch in range(3) for v in prof._lookup_table[ch]]
+                tab = prof._lookup_table
+                run.profile_monotone = all(t[0] == 0 and all(a <= b for a, b in zip(t, t[1:])) for t in tab)
     run.install = install
     run.execute()
     run.vm_lights = None
@@ -695,12 +842,16 @@ def one_case(ctx, model, case, batch=False):
         ctx.count("op_" + op[1])
         if op[1] == "color" and op[3]:
             ctx.count("color_with_fade")
+        if op[1] == "color" and len(op) > 7:
+            ctx.count("op_light_" + op[7][0])
         if op[1] == "remove" and op[3]:
             ctx.count("remove_with_fade_out")
     for name, _, kind in run.lights:
         for ev in run.logs[name]:
             if ev["ev"] == "fire":
                 ctx.count("fade_out_delay_fired")
+            elif ev["ev"] == "step" and "fade" in ev:
+                ctx.count("hw_fade_task_steps")
             elif ev["ev"] == "step":
                 ctx.count("soft_task_steps")
             elif ev["ev"] == "op" and ev["sets"]:
@@ -708,9 +859,25 @@ def one_case(ctx, model, case, batch=False):
             elif ev["ev"] == "op":
                 ctx.count("hw_updates_suppressed_or_skipped")
     ctx.count("samples", run.samples)
+    for k, v in run.obs.items():
+        ctx.count("observed_outside_property_" + k, v)
+    if getattr(run, "profile_monotone", None) is not None:
+        # observation only (not part of the property): the configured correction table is monotone and maps 0 to 0
+        ctx.count("profile_table_monotone" if run.profile_monotone else "profile_table_not_monotone")
     ctx.count("cases_batch" if batch else "cases_direct_soft")
     if not batch:
         ctx.count("rgbw_" + case.get("rgbw", "duck_rgb"))
+        ctx.count("hw_max_fade_ticks_%d" % case.get("hwm", 2))
+        ctx.count("brightness_quarters_%d" % case.get("bright", 4))
+    else:
+        ctx.count("batch_hw_max_fade_ticks_%d" % case.get("bhwm", 0))
+        ctx.count("batch_size_%d" % case.get("bsize", 2))
+        ctx.count("batch_rounds", getattr(run, "rounds", 0))
+        plog = run.batch_log
+        ctx.count("batch_lists_sent", sum(1 for e in plog if e[0] == "flush"))
+        ctx.count("batch_lists_longer_than_one", sum(1 for e in plog if e[0] == "flush" and len(e[2]) > 1))
+        ctx.count("batch_hw_intermediate_steps", sum(1 for e in plog if e[0] == "compute" and not e[4] and e[5] > 0))
+        ctx.count("batch_hw_final_commands_with_fade", sum(1 for e in plog if e[0] == "compute" and e[4] and e[5] > 0))
     if run.fail:
         report_failures(ctx, case, run, batch)
     if model is not None and not batch:
@@ -746,6 +913,13 @@ CORPUS = [
 ]
 
 
+CORPUS_BATCH = [
+    # D31 (observed, outside the property): a channel re-dirtied while its round is in progress is computed twice; the second
+    # answer comes from the cache with fade 0 while the hardware fade (12.5 s maximum) is still running
+    {"bhwm": 100, "bright": 4, "bsize": 3, "fill": [[0, 2, [0, 255, 0], 0], [2, 0, [0, 0, 0], 8], [1, 0, [0, 0, 0], 8], [4, 1, [0, 0, 0], 8], [11, 1, [255, 255, 255], 2], [4, 1, [0, 0, 255], 2]], "hwm": 2, "hz": 8, "onc": [255, 255, 255], "ops": [[0, "color", [255, 255, 255], 6, 2, "", 0], [1, "probe", [0, 255, 0]], [-1, "color", [64, 64, 64], 12, 2, "b", 0, ["on", 64]]], "profile": False, "rgbw": "min_rgb", "tail": 24},
+]
+
+
 def run(ctx):
     model = None if getattr(ctx, "model_unavailable", False) else leanproc.LeanProc(ID)
     try:
@@ -759,7 +933,7 @@ def run(ctx):
         except ImportError:
             have_batch = False
         if have_batch:
-            for case in CORPUS:
+            for case in CORPUS + CORPUS_BATCH:
                 one_case(ctx, model, case, batch=True)
             for i in range(ctx.n(120, 1000)):
                 one_case(ctx, model, gen_case(ctx.rng("batch", i)), batch=True)
